@@ -48,49 +48,77 @@ theorem tokE_of_idle (s : St) (n : Nat) (hw : s.ws = List.replicate n .idle) (h1
   unfold TokE
   rw [hw, tot_replicate_idle _ _ rfl, h1, h4, h5, h6]; rfl
 
-theorem step_good (cfg : Cfg) (h3 : Fixed3 cfg) (hm : cfg.m = .asCoded) (s t : St) (f : Bool) (h : Step cfg f s t)
-    (g : Good s ∧ SrOk cfg s) : Good t ∧ SrOk cfg t :=
-  ⟨⟨step_rinvW cfg h3 s t f h g.1.r, step_pinvA s t f cfg h3 hm g.2 h g.1.a, step_pinvB s t f cfg h3 hm g.2 h g.1.b,
-    step_pinvC s t f cfg h3 hm g.2 h g.1.c, step_pinvD s t f cfg h3 hm g.2 h g.1.d,
-    step_pinvE s t f cfg h3 hm g.2 g.1.a h g.1.e, step_w1 cfg hm s t f h g.1.w⟩,
-   step_srOk cfg s t f h g.2⟩
+/-- everything the inductive step needs: the invariants, `SrOk`, the exact accounting of the token while the DB
+is open, and (before 832d000) `compWriteLocking` set by a `SetReadOnly` between its two `select`s -/
+def Inv (cfg : Cfg) (s : St) : Prop := (Good s ∧ SrOk cfg s) ∧ OpenE s ∧ CwlOk cfg s
 
-/-- the invariants, and the exact accounting of the token while the DB is open -/
-theorem step_goodE (cfg : Cfg) (h3 : Fixed3 cfg) (hm : cfg.m = .asCoded) (s t : St) (f : Bool) (h : Step cfg f s t)
-    (g : (Good s ∧ SrOk cfg s) ∧ OpenE s) : (Good t ∧ SrOk cfg t) ∧ OpenE t :=
-  ⟨step_good cfg h3 hm s t f h g.1, step_openE cfg h3 s t f g.1.2 g.1.1.a h g.2⟩
+theorem step_goodE (cfg : Cfg) (h3 : Fixed3 cfg) (hm : cfg.m = .asCoded) (hsh : cfg.Shape) (s t : St) (f : Bool)
+    (h : Step cfg f s t) (g : Inv cfg s) : Inv cfg t :=
+  ⟨⟨⟨step_rinvW cfg h3 s t f h g.1.1.r, step_pinvA s t f cfg h3 hm g.1.2 h g.1.1.a,
+      step_pinvB s t f cfg h3 hm g.1.2 hsh g.2.2 h g.1.1.b, step_pinvC s t f cfg h3 hm g.1.2 h g.1.1.c,
+      step_pinvD s t f cfg h3 hm g.1.2 h g.1.1.d, step_pinvE s t f cfg h3 hm g.1.2 g.1.1.a g.2.1 h g.1.1.e,
+      step_w1 cfg hm s t f h g.1.1.w⟩,
+    step_srOk cfg s t f h g.1.2⟩,
+   step_openE cfg h3 s t f g.1.2 g.1.1.a g.1.1.e h g.2.1, step_cwlOk s t f cfg h g.2.2⟩
 
 /-- what the theorems of C09 cover: the three leaks of `Commit` / `OpenTransaction` / large-batch `Write`
-are closed, `compactionError` is as coded, and either the `SetReadOnly`∥`Close` leak is closed too or no thread
-executes `SetReadOnly` -/
+are closed, `compactionError` is as coded, the hand-over of the token between `SetReadOnly` and `compactionError`
+is as coded since 832d000 or as coded before, and either the `SetReadOnly`∥`Close` leak is closed too or no
+thread executes `SetReadOnly` -/
 def Covered (cfg : Cfg) (s : St) : Prop :=
-  Fixed3 cfg ∧ cfg.m = .asCoded ∧
+  Fixed3 cfg ∧ cfg.m = .asCoded ∧ cfg.Shape ∧
   ((cfg.setReadOnlyReleasesOnClose = true ∧ (Reachable cfg s ∨ ReachableNC cfg s)) ∨ ReachableNoSR cfg s)
 
 theorem openE_of_idle (s : St) (n : Nat) (hw : s.ws = List.replicate n .idle) (h1 : s.tok = false)
     (h4 : s.trOpen = false) (h5 : s.ehTok = false) (h6 : s.closeTok = false) : OpenE s :=
   fun _ => tokE_of_idle s n hw h1 h4 h5 h6
 
+theorem cwlOk_of_idle (cfg : Cfg) (s : St) (n : Nat) (hw : s.ws = List.replicate n .idle) : CwlOk cfg s := by
+  intro _ hp
+  rw [hw, tot_replicate_idle _ _ rfl] at hp
+  cases hp
+
 theorem covered_goodE (cfg : Cfg) (s : St) (h : Covered cfg s) : (Good s ∧ SrOk cfg s) ∧ OpenE s := by
-  obtain ⟨h3, hm, h | h⟩ := h
+  obtain ⟨h3, hm, hsh, h | h⟩ := h
   · obtain ⟨h4, ⟨n, hs⟩ | ⟨n, hs⟩⟩ := h
-    · exact steps_inv_of_step (fun s => (Good s ∧ SrOk cfg s) ∧ OpenE s) (step_goodE cfg h3 hm) _ _ hs
-        ⟨⟨init_good n, Or.inl h4⟩, openE_of_idle _ n rfl rfl rfl rfl rfl⟩
-    · exact steps_inv_of_step (fun s => (Good s ∧ SrOk cfg s) ∧ OpenE s) (step_goodE cfg h3 hm) _ _ hs
-        ⟨⟨initNC_good n, Or.inl h4⟩, openE_of_idle _ n rfl rfl rfl rfl rfl⟩
+    · have := steps_inv_of_step (Inv cfg) (step_goodE cfg h3 hm hsh) _ _ hs
+        ⟨⟨init_good n, Or.inl h4⟩, openE_of_idle _ n rfl rfl rfl rfl rfl, cwlOk_of_idle cfg _ n rfl⟩
+      exact ⟨this.1, this.2.1⟩
+    · have := steps_inv_of_step (Inv cfg) (step_goodE cfg h3 hm hsh) _ _ hs
+        ⟨⟨initNC_good n, Or.inl h4⟩, openE_of_idle _ n rfl rfl rfl rfl rfl, cwlOk_of_idle cfg _ n rfl⟩
+      exact ⟨this.1, this.2.1⟩
   · obtain ⟨n, hs⟩ := h
-    exact steps_inv_of_step (fun s => (Good s ∧ SrOk cfg s) ∧ OpenE s) (step_goodE cfg h3 hm) _ _ hs
-      ⟨⟨initNoSR_good n, Or.inr (initNoSR_noSR n)⟩, openE_of_idle _ n rfl rfl rfl rfl rfl⟩
+    have := steps_inv_of_step (Inv cfg) (step_goodE cfg h3 hm hsh) _ _ hs
+      ⟨⟨initNoSR_good n, Or.inr (initNoSR_noSR n)⟩, openE_of_idle _ n rfl rfl rfl rfl rfl, cwlOk_of_idle cfg _ n rfl⟩
+    exact ⟨this.1, this.2.1⟩
 
 theorem covered_good (cfg : Cfg) (s : St) (h : Covered cfg s) : Good s ∧ SrOk cfg s := (covered_goodE cfg s h).1
 
 theorem covered_steps (cfg : Cfg) (s t : St) (h : Covered cfg s) (hs : Steps cfg s t) : Covered cfg t := by
-  obtain ⟨h3, hm, h | h⟩ := h
+  obtain ⟨h3, hm, hsh, h | h⟩ := h
   · obtain ⟨h4, ⟨n, h0⟩ | ⟨n, h0⟩⟩ := h
-    · exact ⟨h3, hm, Or.inl ⟨h4, Or.inl ⟨n, Steps.trans h0 hs⟩⟩⟩
-    · exact ⟨h3, hm, Or.inl ⟨h4, Or.inr ⟨n, Steps.trans h0 hs⟩⟩⟩
+    · exact ⟨h3, hm, hsh, Or.inl ⟨h4, Or.inl ⟨n, Steps.trans h0 hs⟩⟩⟩
+    · exact ⟨h3, hm, hsh, Or.inl ⟨h4, Or.inr ⟨n, Steps.trans h0 hs⟩⟩⟩
   · obtain ⟨n, h0⟩ := h
-    exact ⟨h3, hm, Or.inr ⟨n, Steps.trans h0 hs⟩⟩
+    exact ⟨h3, hm, hsh, Or.inr ⟨n, Steps.trans h0 hs⟩⟩
+
+/-- **since 832d000**: the accounting of the token is exact in every run — corruption errors, `SetReadOnly` and
+`Close` anywhere -/
+theorem exact_handsOver (cfg : Cfg) (h3 : Fixed3 cfg) (hm : cfg.m = .asCoded) (hh : cfg.HandsOver)
+    (h4 : cfg.setReadOnlyReleasesOnClose = true) (s : St)
+    (hr : Reachable cfg s ∨ ReachableNC cfg s ∨ ReachableNoSR cfg s) : ExactH s := by
+  have key : ∀ (s0 : St) (n : Nat), s0.ws = List.replicate n .idle → s0.tok = false → s0.trOpen = false →
+      s0.ehTok = false → s0.closeTok = false → s0.cwl = false → s0.eh = .noerr → Steps cfg s0 s → ExactH s := by
+    intro s0 n hw h1 h2 h5 h6 h7 h8 hs
+    refine steps_inv_of_step ExactH (fun s t f h inv => step_exactH cfg h3 hm hh h4 s t f h inv) _ _ hs ?_
+    refine ⟨tokE_of_idle _ n hw h1 h2 h5 h6, ?_, ?_, ?_⟩
+    · intro h; rw [h7] at h; cases h
+    · rw [hw, tot_replicate_idle _ _ rfl]; exact Nat.zero_le _
+    · intro h; rw [h8] at h; cases h
+  rcases hr with ⟨n, hs⟩ | ⟨n, hs⟩ | ⟨n, hs⟩
+  · exact key _ n rfl rfl rfl rfl rfl rfl rfl hs
+  · exact key _ n rfl rfl rfl rfl rfl rfl rfl hs
+  · exact key _ n rfl rfl rfl rfl rfl rfl rfl hs
 
 /-- runs without corruption errors: the accounting of the token is exact throughout -/
 theorem exact_noCorr (cfg : Cfg) (h3 : Fixed3 cfg) (hm : cfg.m = .asCoded)
@@ -106,14 +134,14 @@ theorem exact_noCorr (cfg : Cfg) (h3 : Fixed3 cfg) (hm : cfg.m = .asCoded)
 theorem exact_noSR (cfg : Cfg) (h3 : Fixed3 cfg) (hm : cfg.m = .asCoded) (s : St) (hr : ReachableNoSR cfg s) :
     TokE s := by
   obtain ⟨n, hs⟩ := hr
-  have key : ∀ s, Steps cfg (initNoSR n) s → (Good s ∧ SrOk cfg s) ∧ NoSR s ∧ TokE s := by
+  have key : ∀ s, Steps cfg (initNoSR n) s → True ∧ NoSR s ∧ TokE s := by
     intro s hs
     induction hs with
-    | refl => exact ⟨⟨initNoSR_good n, Or.inr (initNoSR_noSR n)⟩, initNoSR_noSR n, tokE_of_idle _ n rfl rfl rfl rfl rfl⟩
+    | refl => exact ⟨trivial, initNoSR_noSR n, tokE_of_idle _ n rfl rfl rfl rfl rfl⟩
     | @tail t u f _ h ih =>
-      obtain ⟨g, ns, e⟩ := ih
-      refine ⟨step_good cfg h3 hm _ _ _ h g, step_noSR cfg _ _ _ h ns, ?_⟩
-      refine step_tokE _ _ _ cfg h3 (Or.inr ns) (fun _ hp => ?_) (fun hc => ?_) h e
+      obtain ⟨ns', ns, e⟩ := ih
+      refine ⟨ns', step_noSR cfg _ _ _ h ns, ?_⟩
+      refine step_tokE _ _ _ cfg h3 (Or.inr ns) (fun hp => ?_) (fun hc => ?_) h e
       · exfalso
         have h1 := tot_le_tot srW srAllW (by intro p; cases p <;> simp [srW, srAllW]) t.ws
         have h2 := ns.2
